@@ -80,6 +80,9 @@ class Report(object):
             self.broken += below
         elif below:
             self.extra["below_minimum_but_violations_found"] = below
+        if os.environ.get("VERIF_LIST"):        # development aid: every obligation, one per line
+            for o in self.obls:
+                print("LIST %s %s %s %s | %s" % (o["rule"], o["key"], o["verdict"], o["site"], str(o["fact"])[:160]))
         viols, knowns = [], []
         for o in self.obls:
             if o["verdict"] == "violation":
